@@ -301,6 +301,28 @@ def cls_match_py(x, c) -> bool:
     return hit != x[1]
 
 
+def nested_repeat(xs, inside=False) -> bool:
+    """A repeat inside a repeat: re (backtracking) may need exponential time on long non-matching strings."""
+    for x in xs:
+        if x == "NAny":
+            continue
+        k = x[0]
+        if k == "NRep":
+            if inside or nested_repeat(x[3], True):
+                return True
+        elif k == "NSub":
+            if nested_repeat(x[1], inside):
+                return True
+        elif k == "NBranch":
+            if any(nested_repeat(a, inside) for a in x[1]):
+                return True
+    return False
+
+
+def max_len_for(ast) -> int:
+    return 14 if nested_repeat(ast) else 60
+
+
 def mutate(rng, s: str) -> str:
     k = rng.random()
     if k < 0.25:
@@ -340,10 +362,31 @@ def impl_update(pattern, mn, mx):
         return ("raises", type(exc).__name__)
 
 
-def re_search(pattern, s) -> bool:
-    with warnings.catch_warnings():
-        warnings.simplefilter("ignore")
-        return re.search(pattern, s) is not None
+class ReTimeout(Exception):
+    pass
+
+
+def _alarm(signum, frame):
+    raise ReTimeout()
+
+
+def re_search(pattern, s, limit=1.0) -> bool:
+    """re.search with a wall-clock limit (the backtracking engine is exponential on some nested repeats; it polls signals)."""
+    import signal
+    import threading
+
+    use_alarm = threading.current_thread() is threading.main_thread()
+    if use_alarm:
+        old = signal.signal(signal.SIGALRM, _alarm)
+        signal.setitimer(signal.ITIMER_REAL, limit)
+    try:
+        with warnings.catch_warnings():
+            warnings.simplefilter("ignore")
+            return re.search(pattern, s) is not None
+    finally:
+        if use_alarm:
+            signal.setitimer(signal.ITIMER_REAL, 0)
+            signal.signal(signal.SIGALRM, old)
 
 
 def unsym(v):
@@ -417,6 +460,10 @@ def stage_rewriter(chk, cases):
             stats["unchanged"] += 1
             if out != p:
                 chk.disagree("model says unchanged, implementation rewrote", case, out, m)
+                try:  # still search this case for a concrete failing string
+                    rewritten.append((p, ast, mn, mx, out, to_ast(out)))
+                except (Unsupported, re.error):
+                    pass
             continue
         stats["rewritten"] += 1
         try:
@@ -427,11 +474,64 @@ def stage_rewriter(chk, cases):
             continue
         if out_ast != m[1]:
             chk.disagree("update_quantifier output AST vs model", case, {"text": out, "ast": out_ast}, m[1])
+            if out != p:
+                rewritten.append((p, ast, mn, mx, out, out_ast))
             continue
         if out != p:
             rewritten.append((p, ast, mn, mx, out, out_ast))
         chk.sample({"pattern": p, "minLength": mn, "maxLength": mx, "rewritten": out})
     return rewritten, stats
+
+
+def stage_schema_keywords(chk, cases):
+    """converter.update_pattern_in_schema on {pattern, minLength, maxLength}: which keywords survive, vs the model."""
+    from schemathesis.core.errors import InternalError
+    from schemathesis.specs.openapi.converter import update_pattern_in_schema
+
+    exprs = [f"update_pattern_in_schema {c_seq(ast)} {c_optz(mn)} {c_optz(mx)}" for _, ast, mn, mx in cases]
+    model = core.coq_eval(IMPORTS, exprs)
+    agree = 0
+    for (p, ast, mn, mx), mv in zip(cases, model):
+        schema = {"type": "string", "pattern": p}
+        if mn is not None:
+            schema["minLength"] = mn
+        if mx is not None:
+            schema["maxLength"] = mx
+        case = dict(schema)
+        try:
+            with warnings.catch_warnings():
+                warnings.simplefilter("ignore")
+                update_pattern_in_schema(schema)
+            impl = (schema.get("minLength"), schema.get("maxLength"), schema["pattern"] != p)
+        except InternalError:
+            impl = "raises"
+        m = unsym(core.popt(mv))
+        if m is None:
+            mod = "raises"
+        else:
+            m_ast, m_mn, m_mx = m
+            mod = (core.popt(m_mn), core.popt(m_mx), None)
+        chk.seen({"keywords": case}, True)
+        ok = (impl == "raises") == (mod == "raises")
+        if ok and impl != "raises":
+            ok = impl[:2] == mod[:2]
+            if ok and impl[2]:
+                try:
+                    ok = to_ast(schema["pattern"]) == m_ast
+                except (Unsupported, re.error):
+                    ok = False
+            elif not ok and m_ast == ast and impl[:2] == (mn, mx):
+                # the rewritten TEXT is identical to the input (e.g. (a){1,5} with 1/5): the code keeps the keywords; the AST model
+                # cannot see text identity and reports them dropped - the theorem covers that stronger case, the pattern is unchanged
+                ok = True
+                chk.count("keywords:text-identical-rewrite")
+            elif ok:
+                ok = m_ast == ast
+        if not ok:
+            chk.disagree("update_pattern_in_schema surviving keywords vs model", case, impl if impl == "raises" else {"minLength": impl[0], "maxLength": impl[1], "pattern": schema["pattern"]}, str(m)[:300])
+        else:
+            agree += 1
+    return {"cases": len(cases), "agree": agree}
 
 
 def stage_matcher(chk, pairs):
@@ -440,7 +540,11 @@ def stage_matcher(chk, pairs):
     model = core.coq_eval(IMPORTS, exprs)
     agree = 0
     for (p, ast, s), mv in zip(pairs, model):
-        real = re_search(p, s)
+        try:
+            real = re_search(p, s)
+        except ReTimeout:
+            chk.count("matcher:re-timeout-skipped")
+            continue
         chk.seen({"match": p, "s": s}, real)
         chk.count(f"matcher:{'match' if real else 'nomatch'}")
         if bool(mv) != real:
@@ -453,10 +557,14 @@ def stage_matcher(chk, pairs):
 def rewrite_violation(p, mn, mx, out, s):
     """Property on the implementation: s is generated for the rewritten pattern (length keywords dropped);
     it must satisfy the ORIGINAL pattern + minLength + maxLength."""
-    if not re_search(out, s):
+    try:
+        if not re_search(out, s):
+            return None
+        orig = re_search(p, s)
+    except ReTimeout:
         return None
     bad = []
-    if not re_search(p, s):
+    if not orig:
         bad.append("original pattern does not match")
     if mn is not None and len(s) < mn:
         bad.append(f"len {len(s)} < minLength {mn}")
@@ -474,7 +582,7 @@ def stage_rewrite_search(chk, rewritten, per_case):
         seen = set()
         for _ in range(per_case):
             s = mutate(rng, sample_match(rng, out_ast))
-            if s in seen or len(s) > 80:
+            if s in seen or len(s) > min(max_len_for(out_ast), max_len_for(ast)):
                 continue
             seen.add(s)
             tried += 1
@@ -606,8 +714,11 @@ def stage_forbid(chk, n):
 def satisfiable_sample(rng, ast, p, mn, mx):
     for _ in range(12):
         s = sample_match(rng, ast)
-        if re_search(p, s) and (mn is None or len(s) >= mn) and (mx is None or len(s) <= mx):
-            return s
+        try:
+            if len(s) <= 200 and re_search(p, s) and (mn is None or len(s) >= mn) and (mx is None or len(s) <= mx):
+                return s
+        except ReTimeout:
+            return None
     return None
 
 
@@ -642,7 +753,7 @@ def stage_string_level(chk, n):
             continue
         for _ in range(6):
             s = mutate(rng, sample_match(rng, out_ast))
-            bad = rewrite_violation(p, mn, mx, out, s) if len(s) <= 80 else None
+            bad = rewrite_violation(p, mn, mx, out, s) if len(s) <= min(max_len_for(out_ast), max_len_for(ast)) else None
             if bad:
                 stats["violations"] += 1
                 chk.fail("value generated for the rewritten pattern violates the original keywords: " + "; ".join(bad), {**case, "rewritten": out, "string": s}, bad, region=string_level_region(p))
@@ -918,7 +1029,7 @@ def run(chk: core.Check):
     while len(pairs) < n_pairs and pool:
         p, ast = rng.choice(pool)
         s = mutate(rng, sample_match(rng, ast))
-        if len(s) <= 40:
+        if len(s) <= min(40, max_len_for(ast)):
             pairs.append((p, ast, s))
     for c in corpus:
         if c.get("kind") == "rewrite":
@@ -926,6 +1037,7 @@ def run(chk: core.Check):
                 pairs.append((pat, to_ast(pat), c["string"]))
     chk.stages["correspondence_matcher"] = stage_matcher(chk, pairs)
 
+    chk.stages["correspondence_update_pattern_in_schema"] = stage_schema_keywords(chk, cases[: (700 if quick else 6000)])
     chk.stages["correspondence_kernel"] = stage_kernel(chk, 1500 if quick else 20000)
     chk.stages["correspondence_forbid_properties"] = stage_forbid(chk, 300 if quick else 4000)
 
